@@ -558,6 +558,11 @@ impl Svc {
       if i % stride != 0 || !seen.insert((pos.0, pos.1)) {
         continue;
       }
+      // (placeholder identifiers of error-recovered ASTs - `missing`, zero width - have no token: skipped)
+      let tok = toks
+        .iter()
+        .find(|(l, c0, c1, t)| *l == pos.0 && *c0 <= pos.1 && pos.1 < *c1 && t == name);
+      let Some((_, ts, te, _)) = tok.cloned() else { continue };
       let at = format!("{}.{}", pos.0, pos.1);
       let hn = hex(name.as_bytes());
       let d = samlang_services::query::definition_location(&self.state, &m, *pos);
@@ -573,11 +578,7 @@ impl Svc {
         if r.is_empty() { "none".to_string() } else { r.iter().map(|l| self.loc_str(l)).collect::<Vec<_>>().join(",") }
       ));
       // hover at EVERY position inside the identifier token [s, e): first, interior and last byte
-      let tok = toks.iter().find(|(l, c0, c1, _)| *l == pos.0 && *c0 <= pos.1 && pos.1 < *c1);
-      let (ts, te) = match tok {
-        Some((_, c0, c1, _)) => (*c0, *c1),
-        None => (pos.1, pos.1 + name.len() as u32),
-      };
+
       for c in ts..te.max(ts + 1) {
         let p = Position(pos.0, c);
         let h = samlang_services::query::hover(&self.state, &m, p);
